@@ -12,6 +12,7 @@
 (*   <<"c", path>>            a resource was copied (CSS, JS, [Resources])   *)
 (*   <<"x", path>>            a written file was deleted again               *)
 (*   <<"r">>                  skool2html started again on the same directory *)
+(*   <<"e">>                  the last run has ended (always the last event)  *)
 (* Each event IS the corresponding Site action.  WrittenOnce is evaluated    *)
 (* after every step, the other C16 clauses on the final tree; every failing  *)
 (* clause is printed as <<"FAIL", tid * 10000 + step, "clause|detail">>.     *)
@@ -39,6 +40,7 @@ TraceStep ==
        \/ e[1] = "c" /\ CopyResource(e[2])
        \/ e[1] = "x" /\ RemoveFile(e[2])
        \/ e[1] = "r" /\ NewRun
+       \/ e[1] = "e" /\ UNCHANGED <<files, written, links>>
   /\ l' = l + 1
   /\ UNCHANGED <<tid, site, todo>>
   /\ LET last == l = Len(Traces[tid].ev)
